@@ -158,7 +158,7 @@ func (c *Ctx) operandWF(st *State, op Term, method string) Term {
 	regOK := And(Neq(d.reg, TNull), Eq(d.bs, raw("(isa.regbs "+d.rt.S+")", SBV(64))), BVSle(BVLitI(0, 64), d.rc), BVSle(d.rc, BVLitI(16, 64)),
 		Or(Eq(nb, BVLitI(4, 64)), Eq(nb, BVLitI(8, 64)), Eq(nb, BVLitI(1, 64))), defd, inFile)
 	c.W.noteAssumed("register descriptors come from the insts.Regs table (ByteSize is a function of RegType)")
-	wf := And(Neq(op, TNull), okKinds, Implies(isReg, regOK))
+	wf := And(Neq(op, TNull), okKinds, Implies(isReg, regOK), c.floatOperandWF(d))
 	if strings.HasPrefix(method, "Write") {
 		wf = And(wf, isReg)
 	}
